@@ -109,6 +109,9 @@ def doApply (d : DState) (s0 : Sys) (ips : List Ip) (table : List (Ip × Bool)) 
 
 def step (d : DState) (toks : List String) : DState × String :=
   match toks with
+  | ["host", name] =>
+    -- how the harness names the receiver (dotted quad or `localhost`): nothing in the model depends on it
+    if name == "127.0.0.1" || name == "localhost" then (d, "ok") else (d, "bad-op")
   | ["evloop", _, _] =>
     -- the harness runs the REAL event loop on loopback (real ips file, real SIGHUPs) and checks the
     -- settled uplink set with a monitor; no model state is involved: constant reply
